@@ -53,6 +53,22 @@ def run_gate(prog, tier, repo):
         # b (with its closures) references lowering: it must be a gate function
         hs = call_sites(b, has_errors_pred)
         if not hs:
+            # the gate may sit in a private helper next to the function (`let checked = type_check_or_render_errors(..)?;`):
+            # decide on the body with such helpers inlined
+            try:
+                from .. import inline as _inl
+                if not hasattr(prog, 'call_counts'):
+                    prog.call_counts = _inl._call_counts(prog)
+                nb = _inl._inline_once(prog, b, set())
+                if nb is not None and call_sites(nb, has_errors_pred):
+                    for _ in range(3):
+                        if not _inl._sra(nb):
+                            break
+                    b = nb
+                    hs = call_sites(b, has_errors_pred)
+            except Exception:
+                pass
+        if not hs:
             key = f'who-may-call:{b.name}'
             callee_names = sorted(L[i].name for i in allrefs)
             # lowering functions calling each other (e.g. the pub wrapper of wasm lowering) are fine
